@@ -187,6 +187,9 @@ def hand_cases(tier, seed):
                                         continue  # a dictionary can only name the kind
                                     cases.append(dict(src="hand", kind=kind, dim=dim, ns=ns, noise=noise, variant=variant,
                                                       name=nm, feat=ft, via=via))
+                                    if variant == 0 and ft == "plain" and nm == kind:
+                                        cases.append(dict(src="hand", kind=kind, dim=dim, ns=ns, noise=noise, variant=4,
+                                                          name=nm, feat=ft, via=via))
                                     if kind == "joint" and variant == 0 and ft == "plain" and nm in (kind, "my-model"):
                                         cases.append(dict(src="hand", kind=kind, dim=dim, ns=ns, noise=noise, variant=variant,
                                                           name=nm, feat=ft, via=via, ne=2))
@@ -334,7 +337,7 @@ def hyper_kwargs(case):
 
 def hand_parameters(case):
     spec = dict(kind=case["kind"], dim=case["dim"], ns=case["ns"], noise=case["noise"], variant=case["variant"] % 3)
-    if case["variant"] == 3:
+    if case["variant"] in (3, 4):
         spec["variant"] = 1
     d = copy.deepcopy(model_dict(spec))
     if case["variant"] == 3:
@@ -343,6 +346,12 @@ def hand_parameters(case):
                 return [scale(v) for v in x]
             return x * HAND_SCALE
         d["parameters"] = {k: scale(v) for k, v in d["parameters"].items()}
+    if case["variant"] == 4:
+        # very small dispersions (nearly noise-free data, tight priors): what the file says is what the model holds
+        for k in d["parameters"]:
+            if k.endswith("_std"):
+                v0 = d["parameters"][k]
+                d["parameters"][k] = [0.001 * (1 + 0.5 * i) for i in range(len(v0))] if isinstance(v0, list) else 0.001
     d["features"] = features_of(case)
     ne = int(case.get("ne", 1))
     if case["kind"] == "joint" and ne != 1:
@@ -834,9 +843,10 @@ def run_case(case, tmpdir):
         except Exception as e:
             judge.add("compute_individual_trajectory", type(e).__name__, feat, exc_text(e))
         ok_all = True
-        for opt in ("default", "no_mixing"):
-            kw = {} if opt == "default" else {"with_mixing_matrix": False}
-            site_s = "save" if opt == "default" else "save(with_mixing_matrix=False)"
+        for opt in ("default", "no_mixing", "sort_keys"):
+            # "sort_keys": a keyword forwarded to json.dump (documented pass-through): the same document, keys in another order
+            kw = {} if opt == "default" else {"with_mixing_matrix": False} if opt == "no_mixing" else {"sort_keys": True}
+            site_s = "save" if opt == "default" else "save(with_mixing_matrix=False)" if opt == "no_mixing" else "save(sort_keys=True)"
             p1 = os.path.join(tmpdir, f"m1_{opt}.json")
             try:
                 model.save(p1, **kw)
@@ -852,7 +862,7 @@ def run_case(case, tmpdir):
                 check_against_file(model, doc1, case, judge, "updated model" if case.get("update") else
                                    ("fitted model (used between two fits)" if case.get("pre") else "fitted model")
                                    if case["src"] == "fit" else "loaded model", ips, ages, trajs1)
-            elif "mixing_matrix" in doc1.get("parameters", {}):
+            elif opt == "no_mixing" and "mixing_matrix" in doc1.get("parameters", {}):
                 judge.add(site_s, "mixing_matrix written although not asked", feat, "parameters/mixing_matrix present")
             # ---- reload
             m2, repaired = load_file(p1, model, judge, case, site_s, tmpdir, f"m1_{opt}")
